@@ -256,8 +256,8 @@ impl Driver for C11 {
                 format!("max sum(n in vals) {{ n * x }} + sum({v} in 0..2) {{ y_{{{v}}} }}\ns.t.\n    x <= 1\n    y_{{{v}}} <= {v} + 1 for {v} in 0..2\nwhere\n    let vals = [{}]\ndefine\n    x as NonNegativeReal\n    y_{{{v}}} as NonNegativeReal for {v} in 0..2\n", items.join(", "))
             } else if case == 58 {
                 // string literals with the escapes of the grammar, alone and in arrays
-                let pool = ["a\\nb", "q\\\"r", "t\\\\u", "\\u00e9x", "\u{e9}t\u{e9}", "tab\\t", "plain", "sl\\/ash", "e\u{301}", "two\n  lines", "end\n"];
-                let k = rng.gen_range(1..4);
+                let pool = ["a\\nb", "q\\\"r", "t\\\\u", "\\u00e9x", "\u{e9}t\u{e9}", "tab\\t", "plain", "sl\\/ash", "e\u{301}", "two\n  lines", "end\n", "bs\\\\", "\\\\", "q\\\\\\\""];
+                let k = rng.gen_range(1..6);
                 let items: Vec<String> = (0..k).map(|_| format!("\"{}\"", pool[rng.gen_range(0..pool.len())])).collect();
                 let one = pool[rng.gen_range(0..pool.len())];
                 format!("min x + len(S) + sum(s in S) {{ 1 }}\ns.t.\n    x >= len(S)\nwhere\n    let S = [{}]\n    let one = \"{one}\"\ndefine\n    x as Real\n", items.join(", "))
